@@ -72,7 +72,7 @@ CLAIMED = {
     'C12': ('exploration',
             'deterministic simulation: configuration swarm x boundary payload lengths, wire monitor with independent decoder against capabilities announced on the wire',
             'Each run draws independent capabilities for both sides (six max-APDU sizes x four segmentation values x max-segments x window 1..127), lets both '
-            'announce I-Am and runs echo transactions (both stacks in both roles) with lengths on every resulting boundary; 20% of runs add drops/delays; identity-churn histories (other stations announce, devices move, addresses are taken over, re-announcements with smaller limits before a retry), late I-Ams, transfers segmented in both directions with late segment-acks. The wire monitor checks every '
+            'announce I-Am and runs echo transactions (both stacks in both roles) with lengths on every resulting boundary; 20% of runs add drops/delays; identity-churn histories (other stations announce, devices move, addresses are taken over, re-announcements with smaller limits before a retry), stale-owner histories (the address of a silent requester was announced earlier by a replaced device with other capabilities), late I-Ams, transfers segmented in both directions with late segment-acks. The wire monitor checks every '
             'emitted APDU against the max-APDU / max-segments / segmented-response-accepted bits of the request being answered or the I-Am delivered before the '
             'transfer started, window ranges and negotiation, the window actually used by each sender, and that infeasible transfers end in an abort for the requester.',
             'Trusted: harness decoder and capability model; limits are taken from the wire; I-Am knowledge counts as of the start of a transfer.',
